@@ -47,6 +47,15 @@ def _pick(opc, names):
     return None
 
 
+def takes_operand(opc, op):
+    """operand-taking per the real interpreter's `hasarg` where it has one (3.12+), else the HAVE_ARGUMENT threshold"""
+    if has_interp(opc):
+        d = oracles.opcode_dump(opc.version_tuple[:2])["opcode"]
+        if d.get("hasarg"):
+            return op in d["hasarg"]
+    return op >= opc.HAVE_ARGUMENT
+
+
 def ref_stream(code, opc, caches_of):
     """arithmetic reference: (offset, op, arg) for every code unit incl. cache slots"""
     out = []
@@ -58,7 +67,7 @@ def ref_stream(code, opc, caches_of):
     while i < n:
         op = code[i]
         if word:
-            if op >= opc.HAVE_ARGUMENT:
+            if takes_operand(opc, op):
                 arg = code[i + 1] + ext
                 ext = arg * 256 if op == ext_op else 0
             else:
@@ -163,7 +172,7 @@ def make_ob(tname, opc, op, k, tier):
                 assert inst.arg is None, "arg-none at %d: got %r" % (off, inst.arg)
             else:
                 assert inst.arg is not None and inst.arg == rarg, "arg at %d" % off
-            assert inst.has_arg == (rop >= opc.HAVE_ARGUMENT), "has_arg at %d" % off
+            assert inst.has_arg == takes_operand(opc, rop), "has_arg at %d" % off
             pos = off + ((2 if word else (3 if rop >= opc.HAVE_ARGUMENT else 1)))
         assert pos == len(items), "tiling-end: %r != %r" % (pos, len(items))
         # the instruction under test
@@ -212,7 +221,7 @@ def generate(tier, seed):
         if has_interp(opc) and opc.version_tuple >= (3, 6):
             oracles.load_dis(tuple(opc.version_tuple[:2]))
         for op in defined_ops(opc):
-            has_arg = op >= opc.HAVE_ARGUMENT
+            has_arg = takes_operand(opc, op)
             if word:
                 ks = (0, 1, 2) if tier == "quick" else (0, 1, 2, 3)
             else:
